@@ -86,7 +86,12 @@ def rand_ts(rng):
 def rand_entry(rng, hostile=0.5, tags=None):
     tag = rng.choice(tags or mtext.ALL_TAGS)
     if tag == 'TIMESTAMP':
-        return {'tag': tag, 'ts': rand_ts(rng)}
+        e = {'tag': tag, 'ts': rand_ts(rng)}
+        if rng.random() < 0.3:
+            # in-memory timestamps finer than the format's one-second resolution
+            # (datetime.utcnow() as the CLI passes it); ignored by the text model
+            e['us'] = rng.choice([1, 5, 500000, 999999, rng.randrange(1000000)])
+        return e
     if tag == 'IGNORE':
         return {'tag': tag, 'path': rand_path(rng, hostile=hostile)}
     size = rng.choice(SIZES) if rng.random() < 0.5 else rng.randrange(0, 10**6)
